@@ -231,17 +231,7 @@ func (r *renderer) exprInner(e Expr, lead, noExtra bool) {
 		r.punct(x.Op)
 		r.expr(x.R, lvAssign, false, noExtra)
 	case *Member:
-		if n, ok := x.X.(*NumLit); ok && !strings.Contains(n.Text, ".") {
-			// 2.round() is unspecified ([P]); write (2).round()
-			if lead {
-				r.leadBad = true
-			}
-			r.punct("(")
-			r.emit(TNum, n.Text)
-			r.punct(")")
-		} else {
-			r.expr(x.X, lvPost, lead, noExtra)
-		}
+		r.expr(x.X, lvPost, lead, noExtra)
 		r.punct(".")
 		r.word(x.Name)
 	case *Index:
@@ -569,9 +559,6 @@ func needSep(a, b *Tok) bool {
 	aw := a.Kind == TWord || a.Kind == TNum
 	bw := b.Kind == TWord || b.Kind == TNum
 	if aw && bw {
-		return true
-	}
-	if a.Kind == TNum && b.Kind == TPunct && b.Text == "." {
 		return true
 	}
 	if a.Kind == TPunct && a.Text == "." && b.Kind == TNum {
